@@ -35,12 +35,29 @@ func bigSizes() []int {
 	return []int{65537}
 }
 
+// bigSizesC01: the quick tier also builds one batch whose dense list spans two bitmap containers of
+// more than 4096 documents each (serialized bitmap >= 16 KiB, posting-detail offsets beyond 2 MiB:
+// every length field of a postings header then needs 3..4 bytes).
+func bigSizesC01() []int {
+	if os.Getenv("VERIF_TIER") == "thorough" {
+		return bigSizes()
+	}
+	return []int{65537, 76000}
+}
+
 func TestC01Big(t *testing.T) {
 	col := stats.New("C01", "build")
 	defer col.Write()
-	for i, n := range bigSizes() {
+	for i, n := range bigSizesC01() {
 		for _, cm := range []uint32{0, 1024} {
-			c := buildCase{Batch: bigWide(n, i), ChunkMode: cm}
+			if n == 76000 && cm != 0 {
+				continue
+			}
+			seedish := i
+			if n == 76000 {
+				seedish = 0 // with locations
+			}
+			c := buildCase{Batch: bigWide(n, seedish), ChunkMode: cm}
 			col.CaseHash(stats.HashJSON(c), true, []string{"segment>65536-docs"}, func() any { return sampleOf(c) })
 			reportBig(t, col, "C01", "build", c, safeRun(c01, c))
 		}
@@ -148,6 +165,25 @@ func c06FixedPlans() []planCase {
 			out = append(out, planCase{Plan: p})
 		}
 	}
+	// 140 fields with locations, merged by re-encoding (the second input has one more field): field
+	// ids cross the 127/128 varint boundary inside the location records
+	many := func(label string, extra bool) spec.MergePlan {
+		b := &spec.BatchSpec{}
+		for d := 0; d < 2; d++ {
+			doc := spec.DocSpec{ID: spec.B(fmt.Sprintf("%s%d", label, d))}
+			for k := 0; k < 140; k++ {
+				term := spec.B(fmt.Sprintf("t%03d", k))
+				doc.Fields = append(doc.Fields, spec.FieldSpec{Name: fmt.Sprintf("f%03d", k), Type: 't', DV: k%7 == 0, Len: 2,
+					Tokens: []spec.TokenSpec{{Term: term, Freq: 1, Locs: []spec.LocSpec{{Pos: 1 + d, Start: k, End: k + 4}}}, {Term: "shared", Freq: 1}}})
+			}
+			if extra {
+				doc.Fields = append(doc.Fields, spec.FieldSpec{Name: "zextra", Type: 't', Len: 1, Tokens: []spec.TokenSpec{{Term: "z", Freq: 1}}})
+			}
+			b.Docs = append(b.Docs, doc)
+		}
+		return spec.MergePlan{Leaf: b, Mmap: extra}
+	}
+	out = append(out, planCase{Plan: &spec.MergePlan{Children: []spec.MergePlan{many("m", false), many("n", true)}, Drops: []spec.DropSpec{{Nil: true}, {Docs: []uint32{1}}}}})
 	return out
 }
 
